@@ -143,6 +143,9 @@ type c20op struct {
 	long   int // > 0: the level pair of a PUT body lies at about this offset behind padding
 	delta  int
 	strad  bool // form bodies: a valid name ends exactly at offset long and is followed by more text
+	// respFail: the client has gone away - every Write of the response fails
+	// (sequential histories, plainly well-formed requests only)
+	respFail bool
 }
 
 const (
@@ -168,6 +171,13 @@ func c20drawLevel(g *zsim.Stream) zapcore.Level {
 		return pick(g, zapcore.Level(-128), zapcore.Level(-3), zapcore.Level(-2), zapcore.Level(6), zapcore.Level(7), zapcore.Level(100), zapcore.Level(127))
 	}
 	return zapcore.Level(g.Draw(7) - 1)
+}
+
+// c20deadWriter: a ResponseWriter whose client has gone away.
+type c20deadWriter struct{ http.ResponseWriter }
+
+func (c20deadWriter) Write([]byte) (int, error) {
+	return 0, errors.New("write: broken pipe (injected)")
 }
 
 var c20number = regexp.MustCompile(`-?[0-9]+`)
@@ -250,6 +260,7 @@ func runC20(c *Ctx) {
 		}
 		op.level = c20drawLevel(g)
 		op.zero = g.Chance(6)
+		op.respFail = f.Chance(8)
 		if op.kind == c20Put && g.Chance(8) {
 			// a long body: the level pair sits at about a power-of-two offset
 			// (buffer sizes, read limits), either wholly behind it or with a
@@ -396,6 +407,36 @@ func runC20(c *Ctx) {
 			}
 			rec := httptest.NewRecorder()
 			before := reg
+			plainReq := (op.form || ctype == "application/json" || ctype == "") && !trailing && !dup && fr.at < 0 && op.long == 0
+			if seq && op.respFail && plainReq {
+				// The response cannot be delivered. What the request does to the
+				// level does not depend on that: a PUT naming a valid level sets it,
+				// everything else leaves it alone. Status and body are not judged.
+				c.Fault("response-write-fails")
+				lvl.ServeHTTP(c20deadWriter{rec}, req)
+				ev++
+				wantLvl := before
+				if op.kind == c20Put {
+					kind, named := c20classify(op.text)
+					jsonOdd := !op.form && (op.text == "null" || op.text == "{}" || op.text == "1" || op.text == "true")
+					switch {
+					case jsonOdd:
+					case !op.form && op.text == "":
+						wantLvl = zapcore.InfoLevel
+					case kind == 1:
+						wantLvl = named
+					case kind == 2:
+						reg = lvl.Level() // not judged
+						return true
+					}
+				}
+				if got := lvl.Level(); got != wantLvl {
+					c.Fail("C20: what a request does to the level depends on whether its response could be delivered", "%s %s body %q with a response writer whose Write fails: level %s -> %s, expected %s", method, target, clipS(body), before, got, wantLvl)
+					return false
+				}
+				reg = wantLvl
+				return true
+			}
 			lvl.ServeHTTP(rec, req)
 			ev++
 			ret := ev
